@@ -62,7 +62,7 @@ func revTrace(sc *RevScenario, obs *RevObs) []string {
 	}
 	for i, co := range obs.Calls {
 		k := fmt.Sprintf("call%d", i)
-		add(co.TStart, k, 0, fmt.Sprintf("op.invoke caller=%d entry=%s chain=%d defect=%s", co.World.ID, entryNames[co.World.Entry], len(co.World.Certs), chainDefectNames[co.World.ChainDefect]))
+		add(co.TStart, k, 0, fmt.Sprintf("op.invoke caller=%d.%d entry=%s chain=%d defect=%s", co.World.ID, co.Rep, entryNames[co.World.Entry], len(co.World.Certs), chainDefectNames[co.World.ChainDefect]))
 		if co.Returned {
 			var rs []string
 			for _, r := range co.Results {
@@ -76,7 +76,7 @@ func revTrace(sc *RevScenario, obs *RevObs) []string {
 			if co.Panicked {
 				p = fmt.Sprintf(" PANIC=%v", co.PanicVal)
 			}
-			add(co.TReturn, k, 9, fmt.Sprintf("op.return caller=%d err=%s%s results=%s", co.World.ID, e, p, strings.Join(rs, " ; ")))
+			add(co.TReturn, k, 9, fmt.Sprintf("op.return caller=%d.%d err=%s%s results=%s", co.World.ID, co.Rep, e, p, strings.Join(rs, " ; ")))
 		}
 	}
 	if obs.Net != nil {
